@@ -13,7 +13,9 @@ import datetime as dt
 import decimal
 import enum
 import json
+import math
 import pathlib
+import time
 import uuid
 
 from harness import common as C
@@ -39,6 +41,14 @@ TD_STRS = ['1.5', '90', '0', '1h', '1 hour', '2 days, 3:04:05', '3:04:05', '1:02
 TD_NUMS = [0, 1, 90, 1.5, 86400, 0.000001, -5, 1e6]
 DEC_IN = ['1.50', '0', '-3.14', '1E+3', 'NaN', 12, -7, 1.5, 0.1, '  2 ']
 ENUM_MEMBERS = [['A', 2], ['B', 'bee'], ['C', 5], ['D', 'x y']]
+
+
+def local_day(v):
+    """docs/overview.rst: numbers for `date` are "de-serialized using the builtin fromtimestamp method", i.e. the *local*
+    calendar day of the instant (the UTC day when the process runs in UTC).  Derived from C localtime(), floor like
+    date.fromtimestamp, not from the datetime module."""
+    lt = time.localtime(math.floor(v))
+    return dt.date(lt.tm_year, lt.tm_mon, lt.tm_mday)
 
 
 def ref_coerce(tk, v, engine):
@@ -102,7 +112,7 @@ def ref_coerce(tk, v, engine):
         if tv is str and v in ISO_D:
             return dt.date.fromisoformat(v)
         if tv in (int, float) and v in EPOCHS:
-            return dt.datetime.fromtimestamp(v, tz=UTC).date()
+            return local_day(v)
         raise KeyError('out-of-domain')
     if tk == 'time':
         if tv is str and v in ISO_T:
@@ -231,7 +241,13 @@ def run(ctx: C.Ctx):
                 'deque, dict value, Optional, nested dataclass, fixed pair; depth ≤ 3) with growing / shrinking / random element counts between and '
                 'inside documents: every container holds exactly its input elements, each converted as documented; each load vs the (stateless) '
                 'Lean model. NEIGHBOURING FIELDS: 2–4 fields, Annotated[.., Pattern(fmt)] positions (own or shared Pattern object) before / after '
-                'plain date / time / datetime positions, inputs in a neighbour\'s format: outcome of the class = outcome of each field loaded alone.')
+                'plain date / time / datetime positions, inputs in a neighbour\'s format: outcome of the class = outcome of each field loaded alone. '
+                'PROCESS TIME ZONE and USER SUBCLASSES (c04_zone.py): epoch numbers (table, DST-switch instants, random ints / quarter fractions; numeric '
+                'strings and JSON numbers for EnvWizard) and ISO strings for datetime / date / time, under rotating non-UTC POSIX zones '
+                '(TZ + tzset, restored; start-up probe), leaf annotated as the stdlib type or as a user subclass of datetime / date / time / '
+                'Decimal (exact class required) / timedelta / str / int, random nesting context of each engine: datetime = the aware UTC '
+                'instant (default, Env), the given instant (v1), date = the local day by C localtime (docs: builtin fromtimestamp), ISO '
+                'strings zone-independent; non-subclass cases also vs the Lean models with Std tables built inside the zone.')
     reqs, pend = [], []
     for i, (tk, v, ck) in enumerate(cases(ctx)):
         if ctx.done(i):
@@ -273,6 +289,9 @@ def run(ctx: C.Ctx):
     import sys
     from harness.props import c04_engines
     c04_engines.run(ctx, sys.modules[__name__])
+    # ---- the local time zone of the process and user subclasses of leaf types, on the three engines
+    from harness.props import c04_zone
+    c04_zone.run(ctx, sys.modules[__name__], c04_engines)
 
 
 def _nonjson(v):
